@@ -38,7 +38,7 @@ LANGS = ['darr', 'idl', 'julia_ver0', 'julia_ver1', 'mathematica', 'matlab', 'ma
 FOREIGN = ['idl', 'julia_ver0', 'julia_ver1', 'mathematica', 'matlab', 'maple', 'R', 'scilab']
 SHAPES = [(5,), (1,), (2, 3), (3, 1), (1, 4), (2, 3, 4), (4, 1, 2), (2, 3, 4, 5), (1, 2, 1, 3)]
 PATHMODES = ['rel', 'base', 'abs']
-MUST_HIT = ['after-history-on-live-handle', 'churn:ask-trunc-ask', 'churn:ask-append-ask', 'path:base-via-symlink-dotdot', 'path:via-symlink-dotdot', 'path:handle-opened-by-relative-path'] + ['lang:' + l for l in LANGS] + ['path:' + p for p in PATHMODES] + ['offer-table', 'withheld', 'empty-array', 'rank:1', 'rank:2',
+MUST_HIT = ['call:positional-arguments', 'after-history-on-live-handle', 'churn:ask-trunc-ask', 'churn:ask-append-ask', 'path:base-via-symlink-dotdot', 'path:via-symlink-dotdot', 'path:handle-opened-by-relative-path'] + ['lang:' + l for l in LANGS] + ['path:' + p for p in PATHMODES] + ['offer-table', 'withheld', 'empty-array', 'rank:1', 'rank:2',
                                                                               'rank:3', 'rank:4', 'complex', 'float16', 'bigendian']
 COLUMN = {'IDL': ['idl'], 'Julia': ['julia_ver0', 'julia_ver1'], 'Maple': ['maple'], 'Mathematica': ['mathematica'], 'Matlab': ['matlab'],
           'Numpy': ['numpy', 'numpymemmap'], 'Python': ['python'], 'R': ['R'], 'Scilab': ['scilab']}
@@ -273,7 +273,11 @@ def _exec_prog(ctx, spec):
                 ar = None
             finally:
                 os.chdir(old)
-        code = a.readcode(lang, abspath=(pm == 'abs'), basepath=(bparg if pm == 'base' else None))
+        if spec.get('seed', 1) % 4 == 3 or spec.get('positional'):
+            out.cls('call:positional-arguments')      # the same call with abspath and basepath given by position
+            code = a.readcode(lang, pm == 'abs', bparg if pm == 'base' else None)
+        else:
+            code = a.readcode(lang, abspath=(pm == 'abs'), basepath=(bparg if pm == 'base' else None))
         if spec.get('via') == 'relative':
             code = relcode        # generated while the working directory was the one the relative path refers to
         if code is None:
@@ -379,6 +383,8 @@ def prog_specs(seeds=(1,)):
         yield {'f': 'prog', 't': t, 'bo': '<', 'shape': list(shape), 'lang': lang, 'pm': pm, 'seed': 4, 'churn': churn}
     for t, shape, lang in itertools.product(['int16', 'float64', 'complex64'], [(3,), (3, 2)], LANGS):
         yield {'f': 'prog', 't': t, 'bo': '<', 'shape': list(shape), 'lang': lang, 'pm': 'base', 'seed': 2, 'via': 'base-symlink-dotdot'}
+    for t, shape, lang, pm in itertools.product(['uint8', 'float32'], [(3,), (3, 2)], LANGS, PATHMODES):
+        yield {'f': 'prog', 't': t, 'bo': '<', 'shape': list(shape), 'lang': lang, 'pm': pm, 'seed': 8, 'positional': True}
     for t, lang, pm, via in itertools.product(['int16', 'float64', 'complex64'], LANGS, PATHMODES, ['symlink-dotdot', 'relative']):
         yield {'f': 'prog', 't': t, 'bo': '<', 'shape': [3, 2], 'lang': lang, 'pm': pm, 'seed': 2, 'via': via}
     for t, shape, lang in itertools.product(NUMTYPES, [(0,), (0, 3)], LANGS):
